@@ -311,6 +311,20 @@ func (v *UnixVolume) WriteBlock(ctx context.Context, loc string, rdr io.Reader) 
 		v.os.Remove(tmpfile.Name())
 		return err
 	}
+	// If a file is being replaced (e.g., a corrupt copy), hold its
+	// flock while renaming, like Touch() does. Otherwise a
+	// concurrent Trash() could stat the old file, decide to trash
+	// it, and then rename the new file (which is about to be
+	// acknowledged to the client) into the trash.
+	if old, err := v.os.OpenFile(bpath, os.O_RDWR|os.O_APPEND, 0644); err == nil {
+		defer old.Close()
+		if err := v.lockfile(old); err != nil {
+			err = fmt.Errorf("error locking %s: %s", bpath, err)
+			v.os.Remove(tmpfile.Name())
+			return err
+		}
+		defer v.unlockfile(old)
+	}
 	if err := v.os.Rename(tmpfile.Name(), bpath); err != nil {
 		err = fmt.Errorf("error renaming %s to %s: %s", tmpfile.Name(), bpath, err)
 		v.os.Remove(tmpfile.Name())
